@@ -3,6 +3,9 @@
 //! Case k depends on (seed, workload, k) only, so any case can be replayed alone.
 
 mod ctx;
+mod p_filters;
+mod p_history;
+mod p_model;
 mod p_score;
 mod p_sentence;
 mod sut;
@@ -59,6 +62,12 @@ fn main() {
         "C01" => p_score::run_c01(&mut ctx, from, to, tiny),
         "C06" => p_score::run_c06(&mut ctx, from, to, tiny),
         "C14" => p_score::run_c14(&mut ctx, from, to, tiny),
+        "C07" => p_model::run_c07(&mut ctx, from, to),
+        "C19lib" => p_model::run_c19lib(&mut ctx, from, to),
+        "C08h" => p_history::run_c08(&mut ctx, from, to),
+        "C15" => p_filters::run_c15(&mut ctx, from, to),
+        "C16n" => p_filters::run_c16n(&mut ctx, from, to),
+        "C16s" => p_filters::run_c16s(&mut ctx, from, to),
         "C02x" => p_sentence::run_c02x(&mut ctx, from, to),
         "C02r" => p_sentence::run_c02r(&mut ctx, from, to),
         "C03" => p_sentence::run_c03(&mut ctx, from, to),
